@@ -25,6 +25,13 @@ package cli
 //@ ghost $fileText string
 //@ ghost $outBeforeJson string
 
+// Each -r occurrence contributes exactly its argument, verbatim, as one more selector (the flag package
+// calls Set once per occurrence: assumed).
+//@ func cli.multiFlag.Set [C14]
+//@   requires m != nil
+//@   updates nothing
+//@   ensures[C14] one-selector-per-occurrence-verbatim: result == nil && len(*m) == len(old(*m)) + 1 && (*m)[len(old(*m))] == value && (forall k int :: 0 <= k && k < len(old(*m)) ==> (*m)[k] == old((*m)[k]))
+
 //@ func cli.printError [C01,C14]
 //@   updates nothing
 
@@ -46,6 +53,7 @@ package cli
 //@   ensures[C01,C14] exit-status-is-0-or-1: exitCode == 0 || exitCode == 1
 //@   ensures[C14] interpreter-error-means-status-1: $ranProgram && $progErr != nil ==> exitCode == 1
 //@   assert[C14] selectors-in-the-order-given-no-fuzzing: arg2 == rValues && !arg4 && len(arg1) == len(filePaths) @ EvalProgram
+//@   assert[C14] stdin-is-read-only-when-no-input-file-is-named: (readStdin ==> len(filePaths) == 1) && (len(*progFile) > 0 && !readStdin ==> len(filePaths) == len(args)) @ EvalProgram
 //@   assert[C14] json-only-for-a-single-input: len(filePaths) <= 1 @ Evaluator.GetRootJson
 //@   assert[C14] file-gets-exactly-the-serialisation-and-is-truncated: arg1 == $json && $truncating @ (*os.File).WriteString
 //@   exit[C04,C14] o-file-holds-exactly-the-serialisation: $ranProgram && exitCode == 0 && len(*outfile) > 0 && *outfile != "-" ==> $truncating && $fileText == $json && $out == $outBeforeJson
